@@ -4,6 +4,7 @@ package modules
 // accounting intact.
 
 import (
+	"container/list"
 	"context"
 
 	"sync/atomic"
@@ -182,15 +183,26 @@ func VerifC06_Task() {
 			c06Panic(kind)
 		}
 		return nil
-	})
-	// run the task the way the queue handler does (runWithLocking), without
-	// the handler's queue
+	}).MaxDelay(0)
+	// run the task the way the queue handler does: take the submitted task
+	// from the queue, then runWithLocking
+	taskQueue = list.New()
+	prioritizedTaskQueue = list.New()
+	taskSchedule = list.New()
+	runNext := func() {
+		t.Queue()
+		queuesLock.Lock()
+		e := taskQueue.Front()
+		taskQueue.Remove(e)
+		queuesLock.Unlock()
+		e.Value.(*Task).runWithLocking()
+	}
 	go func() {
 		for {
 			taskTimeslot <- struct{}{}
 		}
 	}()
-	t.runWithLocking()
+	runNext()
 	queueWg.Wait()
 	c06CheckReported(ch, "task")
 	rt.Assert(atomic.LoadInt32(m.taskCnt) == 0, "task/counter-restored")
@@ -199,7 +211,7 @@ func VerifC06_Task() {
 	rt.Assert(!t.canceled, "task/not-cancelled")
 	t.lock.Unlock()
 	// the panicked task can run again
-	t.runWithLocking()
+	runNext()
 	queueWg.Wait()
 	t.lock.Lock() // (the run's clean-up holds the task's lock until it is done)
 	t.lock.Unlock()
